@@ -130,7 +130,12 @@ where
     })
 }
 
-/// thorough: full 16-bit x 16-bit for add / sub / mul and their wrapping forms (array op scalar, one unit per right operand)
+/// thorough: full 16-bit x 16-bit for add / sub / mul and their wrapping forms (array op scalar, one unit per right
+/// operand). Individually determined: every pair of the wrapping forms, every Ok-expected pair of the checked forms
+/// (packed call), and of the Err-expected pairs those adjacent (in value order of the left operand) to an Ok-expected
+/// pair plus the first and last one (one-row calls). The remaining Err-expected pairs of a unit are submitted in one
+/// packed call that must fail (their per-element function `*_checked` is covered for ALL pairs by the
+/// native-16bit-full-square sub-engine).
 fn int16_full<T>(ctx: &Ctx, sub: &str) -> Stats
 where
     T: ArrowPrimitiveType,
@@ -144,9 +149,32 @@ where
         let b = all[(idx / 6) as usize];
         let ex = move |a, b| int_expect(op, a, b);
         let spec = spec_int::<T>(sub, op, &ex);
-        let bv = vec![b; all.len()];
-        let nt = if b.is_zero() { 0 } else { 65535 };
-        eval_pairs(&spec, Layout { form: Form::AS, off: 0 }, &all, &bv, nt, idx, st);
+        let n = all.len();
+        let is_err: Vec<bool> = all.iter().map(|a| matches!(int_expect(op, *a, b), Exp::Err)).collect();
+        let mut sel = Vec::with_capacity(n);
+        let mut packed_err = vec![];
+        let (first_err, last_err) = (is_err.iter().position(|e| *e), is_err.iter().rposition(|e| *e));
+        for i in 0..n {
+            if !is_err[i] || (i > 0 && !is_err[i - 1]) || (i + 1 < n && !is_err[i + 1]) || Some(i) == first_err || Some(i) == last_err {
+                sel.push(all[i]);
+            } else {
+                packed_err.push(all[i]);
+            }
+        }
+        let bv = vec![b; sel.len()];
+        let nt = if b.is_zero() { 0 } else { sel.len() as u64 };
+        let lay = Layout { form: Form::AS, off: 0 };
+        eval_pairs(&spec, lay, &sel, &bv, nt, idx, st);
+        if !packed_err.is_empty() {
+            st.add(sub, 1, 1);
+            match call(&spec, lay, &packed_err, &[b]) {
+                CallOut::Err(_, kind) => st.outcome(&format!("c12:int:{}:all-overflowing-array:err:{kind}", op.name())),
+                CallOut::Vals(_) => st.violate(idx, format!("c12:int:{}:missing-error", op.name()), format!("{} {}: an array of {} left operands that all overflow with scalar {:?} returned Ok", T::DATA_TYPE, op.name(), packed_err.len(), b), || {
+                    vcore::serde_json::json!({"sub": sub, "kernel": op.name(), "type": T::DATA_TYPE.to_string(), "right": format!("{b:?}"), "left_first": format!("{:?}", packed_err[0])})
+                }),
+                CallOut::Bad(k, m) => st.violate(idx, format!("c12:int:{}:{k}", op.name()), m, || vcore::serde_json::json!({"sub": sub, "kernel": op.name(), "right": format!("{b:?}")})),
+            }
+        }
     })
 }
 
